@@ -123,6 +123,11 @@ pub fn gen(rng: &mut Rng, thorough: bool, out: &mut Sink) {
         if rng.chance(1, 3) {
             def.config.decoding.push(Decoding::Collapse { character: c });
         }
+        if rng.chance(1, 2) {
+            // a step that acts on an EMPTY text too, after a step that may have removed everything: every
+            // configured step runs
+            def.config.decoding.push(Decoding::Extend { character: '"', left: 1, right: 1, pad: rng.chance(1, 2) });
+        }
         let cid = 8_000_000u32;
         let cbytes = c.to_string().into_bytes();
         let mut lines = Vec::new();
